@@ -170,8 +170,14 @@ fn sample_batch(rows: usize) -> RecordBatch {
 
 pub const N_FILES: usize = 8;
 
-/// deterministic valid base files: encodings × codecs × page versions
+/// base files are built once per process
 fn base_file(id: usize) -> Vec<u8> {
+    static FILES: std::sync::OnceLock<Vec<Vec<u8>>> = std::sync::OnceLock::new();
+    FILES.get_or_init(|| (0..N_FILES).map(build_base_file).collect())[id % N_FILES].clone()
+}
+
+/// deterministic valid base files: encodings × codecs × page versions
+fn build_base_file(id: usize) -> Vec<u8> {
     let rows = 24;
     let mut p = WriterProperties::builder().set_statistics_enabled(EnabledStatistics::Page).set_data_page_row_count_limit(10).set_write_batch_size(5);
     p = match id {
@@ -558,7 +564,8 @@ fn witnesses() -> Vec<(String, String, usize)> {
     // row_groups list: hand-written reader in file/metadata/thrift/mod.rs
     w(format!("C08 tmeta {}160019fcffffffff07", hex(FOOTER_HEAD)), "op:tmeta witness:thrift-rowgroup-capacity nt");
     // skip of a list<bool> with 2^31-1 elements in an unknown field (id 15): loop without consuming input
-    w(format!("C08 tmeta {}1600190c{}", hex(FOOTER_HEAD), "f9f1ffffffff0700"), "op:tmeta witness:thrift-skip-bool-list nt");
+    // (two such fields: 16 bytes of input, 2^32 iterations)
+    w(format!("C08 tmeta {}1600190c{}", hex(FOOTER_HEAD), "f9f1ffffffff07f9f1ffffffff0700"), "op:tmeta witness:thrift-skip-bool-list nt");
     // BitReader::get_vlq_int assert
     w("C08 bvlq ffffffffffffffffffffff".into(), "op:bvlq witness:bitreader-vlq-overlong nt");
     w("C08 delta ffffffffffffffffffffff01".into(), "op:delta witness:bitreader-vlq-overlong nt");
@@ -601,7 +608,11 @@ fn sweep(args: &Args, rng: &mut Rng) -> Vec<(String, String, usize)> {
         // length-field inflations: varint at every footer offset replaced by a huge varint (footer length fixed up)
         let istride = if thorough { 1 } else { 2 };
         for off in (fstart..n - 8).step_by(istride) {
-            push(format!("fsplice:{}:1:ffffffff07", off), "inflate-varint-i32max", &mut out);
+            // 2^21-1: big enough to be unrelated to the input, small enough to be granted (no abort)
+            push(format!("fsplice:{}:1:ffff7f", off), "inflate-varint-2m", &mut out);
+            if thorough || off % 64 == 0 {
+                push(format!("fsplice:{}:1:ffffffff07", off), "inflate-varint-i32max", &mut out);
+            }
             if thorough || off % 4 == 0 {
                 push(format!("fsplice:{}:1:ffffffffffffffff7f", off), "inflate-varint-i64", &mut out);
                 push(format!("fsplice:{}:1:ffffffffffffffffffffff01", off), "inflate-varint-overlong", &mut out);
@@ -614,7 +625,7 @@ fn sweep(args: &Args, rng: &mut Rng) -> Vec<(String, String, usize)> {
         // page headers in the data region are thrift too: inflate varints there
         let dstride = if thorough { 1 } else { 5 };
         for off in (4..fstart).step_by(dstride) {
-            push(format!("splice:{}:1:ffffffff07", off), "inflate-data-varint", &mut out);
+            push(format!("splice:{}:1:ffff7f", off), "inflate-data-varint", &mut out);
             push(format!("splice:{}:0:ffffffffffffffffffffff", off), "insert-overlong", &mut out);
         }
         // cross-splices with another file
